@@ -177,23 +177,16 @@ Print Assumptions C16_mute_depends_on_flags_only.
 
 (* Known finding F-C16-a.  The clause "the mute is 0 on every flagged sample" is
    FALSE for even windows: with the six float64 taps of
-   scipy.signal.windows.cosine(6) (as integers * 2^56; all in [0, 2^56), none equal
-   to 2^56 = one), an isolated flagged sample keeps the gain
+   scipy.signal.windows.cosine(6) (Proofs.cosine6_fixed: integers * 2^56, all in
+   [0, 2^56), none equal to 2^56 = one), an isolated flagged sample keeps the gain
    2455302976440160 / 2^56 = 0.0340741737109318. *)
-Definition cosine6_fixed : list Z :=
-  [18649877681281600; 50952413380206176; 69602291061487776;
-   69602291061487784; 50952413380206184; 18649877681281620].
-
 Theorem C16_mute_even_window_refuted :
   exists (w : list Z) (flags : list bool) (i : nat),
-    Nat.even (length w) = true /\ Forall (fun t => 0 <= t <= 2 ^ 56) w /\
+    Nat.even (length w) = true /\ forallb (fun t => (0 <=? t) && (t <? 2 ^ 56)) w = true /\
     nth i flags false = true /\ (i < length flags)%nat /\
     nth i (mute_fixed 56 flags w) 0 = 2455302976440160 /\
     nth i (mute_fixed 56 flags w) 0 <> 0.
-Proof.
-  exists cosine6_fixed, [false; false; false; false; true; false; false; false; false], 4%nat.
-  vm_compute. repeat split; try (intro; discriminate); repeat constructor; intro; discriminate.
-Qed.
+Proof. exact pub_even_window_refuted. Qed.
 Print Assumptions C16_mute_even_window_refuted.
 
 (* ---- non-vacuity / worked instances -------------------------------------- *)
@@ -212,9 +205,12 @@ Definition cosine7_fixed : list Z :=
 Example C16_example_mute_default_window :
   mute_fixed 56 [false; false; false; false; true; false; false; false; false; false; true; true] cosine7_fixed
   = [72057594037927936; 56023270913963260; 27130419008803192; 7135945113803896; 0;
-     7135945113803896; 27130419008803184; 39988947789998576; 11096095884838508; 0; 0; 0]
-  /\ nth 3 cosine7_fixed 0 = 2 ^ 56 /\ length cosine7_fixed = (2 * 3 + 1)%nat.
-Proof. vm_compute. repeat split. Qed.
+     7135945113803896; 27130419008803184; 39988947789998576; 11096095884838516; 0; 0; 0].
+Proof. vm_compute. reflexivity. Qed.
+Example C16_example_default_window_centre_tap :
+  (nth 3 cosine7_fixed 0 =? 2 ^ 56) && (length cosine7_fixed =? 2 * 3 + 1)%nat
+  && forallb (fun t => 0 <=? t) cosine7_fixed = true.
+Proof. vm_compute. reflexivity. Qed.
 
 (* binary32 data, scalar float64 range 0.6, fs = 30000, v_per_sec = 1e-8,
    proportion 0.2, five channels of three samples: at sample 0 exactly one
